@@ -14,6 +14,9 @@ import (
 	"fmt"
 	"hash"
 	"math/rand"
+	"sync"
+	"sync/atomic"
+	"time"
 
 	"golang.org/x/crypto/blake2b" // registers crypto.BLAKE2b_256
 
@@ -28,7 +31,7 @@ func init() {
 		ID:       "C15",
 		Parallel: 4, // cases are judged on 4 goroutines per shard: the library functions are stateless, shared state inside them shows up as wrong verdicts
 		Rule: "sweep: one case per (hash, n): every n in 0..1500 (thorough 0..20000) for SHA-256, every n in 0..300 (thorough 0..4000) and every 5th n above for SHA-512, BLAKE2b-256 and SHA-1, and 2^k-1, 2^k, 2^k+1 for k up to 14 (thorough 18) for all four, plus for SHA-256 leaf counts around 2^15..2^18 (thorough 2^20) and sums of two powers of two (+0, +1); the payload style rotates with n over {random 0..40 bytes, all empty, all equal, one byte, a few long leaves, leaves starting with 0x00/0x01 of node-preimage length, mixed}. " +
-			"style: random (hash, n <= 3000) under every payload style. fail: 1..4 leaves at seeded positions (first, last, around the split point, random) return distinct errors. empty: nil and empty slices. " +
+			"style: random (hash, n <= 3000) under every payload style. fail: 1..4 leaves at seeded positions (first, last, around the split point, random; n up to 3000 and some lists of 4096..16000 leaves) return distinct errors, the failing leaf with the lowest index is slow (injected 3 ms delay) in half of the cases; Hasher objects are shared between cases and goroutines in three quarters of the cases. empty: nil and empty slices. " +
 			"Each case: Hash over instrumented leaves vs. the model's bottom-up root; RFC 6962 audit paths produced by the model for leaf 0, n-1, the leaves around the split point and random leaves are verified against the library's root with the RFC 9162 2.1.3.2 algorithm; the leaf slice, the elements behind its length and every payload are compared with their state before the call; a second call with leaves of another Go type must give the same root; with failing leaves the error must be that of the lowest failing index, or of the first failing MarshalBinary call the library actually made (the same leaf for a left-to-right traversal), and no hash may be returned. " +
 			"Non-trivial: distinct (hash, n) of the sweep with n >= 3 and n not a power of two.",
 		Assumptions: []string{"SHA-256, SHA-512, SHA-1 of the Go standard library and BLAKE2b of golang.org/x/crypto (used by both sides)",
@@ -214,18 +217,53 @@ func (e *leafErr) Error() string { return fmt.Sprintf("leaf %d cannot be marshal
 
 // leaf is an instrumented encoding.BinaryMarshaler.
 type leaf struct {
-	idx  int
-	data []byte
-	err  error
-	log  *[]int32
+	idx   int
+	data  []byte
+	err   error
+	log   *[]int32
+	cl    *callLog
+	delay time.Duration
+}
+
+// callLog makes the instrumentation safe if the library marshals leaves from several goroutines,
+// and records whether calls ever overlapped.
+type callLog struct {
+	mu       sync.Mutex
+	inFlight int32
+	overlap  int32
 }
 
 func (l *leaf) MarshalBinary() ([]byte, error) {
+	if atomic.AddInt32(&l.cl.inFlight, 1) > 1 {
+		atomic.StoreInt32(&l.cl.overlap, 1)
+	}
+	defer atomic.AddInt32(&l.cl.inFlight, -1)
+	l.cl.mu.Lock()
 	*l.log = append(*l.log, int32(l.idx))
+	l.cl.mu.Unlock()
+	if l.delay > 0 {
+		time.Sleep(l.delay) // injected delay: the leaf that fails first in leaf order is slow
+	}
 	if l.err != nil {
 		return nil, l.err
 	}
 	return l.data, nil
+}
+
+// shared Hasher objects: a Hasher is used for many calls, from several goroutines (ordinary use)
+var sharedH [8]*merkle.Hasher
+var sharedOnce sync.Once
+
+func hasherFor(hid int, ch crypto.Hash, seed int64) *merkle.Hasher {
+	sharedOnce.Do(func() {
+		for i, h := range hashes {
+			sharedH[i] = merkle.NewHasher(h.ch)
+		}
+	})
+	if seed%4 == 0 {
+		return merkle.NewHasher(ch)
+	}
+	return sharedH[hid]
 }
 
 // rawLeaf is a second, value-typed marshaler over the same bytes.
@@ -289,22 +327,30 @@ func judge(class string, key []byte, o *fw.Obs) {
 	at := func(b []byte, i int) []byte { return b[offs[i]:offs[i+1]:offs[i+1]] }
 
 	var log []int32
+	cl := &callLog{}
 	ls := make([]leaf, n+2)
 	backing := make([]encoding.BinaryMarshaler, n+2)
 	for i := 0; i < n; i++ {
-		ls[i] = leaf{idx: i, data: at(buf, i), log: &log}
+		ls[i] = leaf{idx: i, data: at(buf, i), log: &log, cl: cl}
 		backing[i] = &ls[i]
 	}
 	// two more elements behind the length of the slice handed over
 	for i := n; i < n+2; i++ {
-		ls[i] = leaf{idx: -1 - (i - n), data: []byte("behind the slice"), log: &log}
+		ls[i] = leaf{idx: -1 - (i - n), data: []byte("behind the slice"), log: &log, cl: cl}
 		backing[i] = &ls[i]
 	}
 	var errs []*leafErr
+	lowestFail := -1
 	for _, f := range s.fail {
 		e := &leafErr{idx: f}
 		errs = append(errs, e)
 		ls[f].err = e
+		if lowestFail < 0 || f < lowestFail {
+			lowestFail = f
+		}
+	}
+	if lowestFail >= 0 && len(s.fail) > 1 && s.seed%2 == 0 {
+		ls[lowestFail].delay = 3 * time.Millisecond
 	}
 	data := backing[:n]
 
@@ -312,7 +358,7 @@ func judge(class string, key []byte, o *fw.Obs) {
 	var err error
 	var H *merkle.Hasher
 	if !o.Try("Hasher.Hash", func() {
-		H = merkle.NewHasher(hd.ch)
+		H = hasherFor(s.hid, hd.ch, s.seed)
 		root, err = H.Hash(data)
 	}) {
 		return
@@ -370,7 +416,8 @@ func judge(class string, key []byte, o *fw.Obs) {
 			}
 		}
 		isLowest := errors.Is(err, lowest)
-		isFirstCalled := firstCalled != nil && errors.Is(err, firstCalled)
+		// "first" in the order of the calls is only well defined when the library marshals sequentially
+		isFirstCalled := firstCalled != nil && errors.Is(err, firstCalled) && atomic.LoadInt32(&cl.overlap) == 0
 		if !isLowest && !isFirstCalled {
 			fc := "none"
 			if firstCalled != nil {
@@ -461,7 +508,7 @@ func judge(class string, key []byte, o *fw.Obs) {
 			if i%2 == 0 {
 				data2[i] = rawLeaf(at(buf, i))
 			} else {
-				data2[i] = &leaf{idx: i, data: at(buf, i), log: &log}
+				data2[i] = &leaf{idx: i, data: at(buf, i), log: &log, cl: cl}
 			}
 		}
 		var root2 []byte
@@ -592,6 +639,9 @@ func gen(g *fw.Gen) {
 	for c := g.ShareOf(6000, 600000); c > 0; c-- {
 		hid := g.Rng.Intn(len(hashes))
 		n := randN(g.Rng, 3000)
+		if c%40 == 0 {
+			n = 4096 + g.Rng.Intn(12000) // large lists: failing leaves far apart
+		}
 		g.Emit("fail", mkKey(hid, n, g.Rng.Int63(), g.Rng.Intn(numStyles), failPositions(g.Rng, n)))
 	}
 }
